@@ -25,6 +25,6 @@ DECLARED = {
     f'{CLI}:update_decl_value': {'arg_mutate:decl'},
     f'{CLI}:resolve_variable': {'arg_mutate:visited'},
     f'{CLI}:process_nodes_recursive': {'arg_mutate:stats', 'arg_mutate:node_list', 'arg_mutate:variables', 'arg_mutate:*via update_decl_value', 'arg_mutate:*via resolve_variable',
-                                       'arg_mutate:*via process_nodes_recursive'},
+                                       'arg_mutate:*via process_nodes_recursive', 'nondet:id()'},      # id(node) only keys the caller's declaration map
     f'{CLI}:main': {'stdout', 'fs_read:*', 'fs_write:output_path', 'nondet:id()', 'arg_mutate:*via process_nodes_recursive', 'arg_mutate:*via update_decl_value'},
 }
